@@ -506,14 +506,16 @@ pub fn suite(out: &mut Out, seed: u64, thorough: bool, mode: &str) {
 	let max = gen_max();
 	let lens: Vec<u64> = if thorough { vec![1, 2, 3, 4, 5, 7, 8, 13, 16, 31, 64, 127, 128, 200, 253, 254] } else { vec![1, 2, 3, 5, 14, 31, 254] };
 	let mut id = 0u64;
+	let mut deck = gen::Deck::values();
+	let mut dr = rng.fork(7919);
 	for &l in &lens {
 		if l >= max {
 			continue;
 		}
 		let len = l as PeriodType;
-		for rep in 0..(if thorough { 3 } else { 1 }) {
+		for _rep in 0..(if thorough { 3 } else { 1 }) {
 			let mut r = rng.fork(id);
-			let class = gen::CLASSES[(id as usize + rep) % gen::CLASSES.len()];
+			let class = deck.draw(&mut dr);
 			let xs: Vec<V> = gen::stream(&mut r, 60 + 2 * l as usize, class).into_iter().map(|x| x as V).collect();
 			out.line(&format!("C {} flags api_{} len={} class={}", id, mode, l, class));
 			if id == 0 {
